@@ -60,6 +60,15 @@ func init() {
 		st.live[k] = true
 		return "ok"
 	}
+	// h.alloc k size: a scratch position from tak.Alloc (what the search stacks, rollouts and solvers hand to
+	// MovePreallocated): a dead buffer - usable as storage, never observed
+	opTable["h.alloc"] = func(s *Session, a []string) string {
+		st := allocOf(s)
+		k := atoi(a[0])
+		st.objs[k] = tak.Alloc(atoi(a[1]))
+		st.live[k] = false
+		return "ok"
+	}
 	opTable["h.fromraw"] = func(s *Session, a []string) string {
 		st := allocOf(s)
 		k := atoi(a[0])
@@ -347,6 +356,17 @@ func genC09(c *Ctx) {
 				c.Count("src.constructed")
 			}
 			c.Emit("h.fromraw 0 " + encPos(p))
+		}
+		// scratch buffers from consecutive tak.Alloc calls (slots from the top): results held in one while another is refilled
+		if c.R.Chance(1, 2) {
+			if st.objs[0] != nil {
+				size = st.objs[0].Size()
+			}
+			for i := 0; i < 2+c.R.Intn(3); i++ {
+				c.Emit(fmt.Sprintf("h.alloc %d %d", nslots-1-i, size))
+			}
+			c.Emit("h.sep")
+			c.Count("session.with-alloc-buffers")
 		}
 		steps := 12 + c.R.Intn(30)
 		for j := 0; j < steps; j++ {
